@@ -273,4 +273,17 @@ theorem C13_clm_member_stream_is_slice (file : Bytes) (hf : file.length < W64) (
     · rename_i hout
       exact slice_create_err fileWrappedOK _ hi off len hs hl hout
 
+/-- hence: a member stream of an archive, together with any other live objects and under any interleaved history of requests to
+    it and to them, keeps exposing exactly the member's recorded extent of the archive file -/
+theorem C13_member_stream_confined (file : Bytes) (hf : file.length < W64) (start len : Nat) (hfit : start + len ≤ file.length)
+    (others : Sys) (h : List (Nat × OOp)) :
+    ∃ s, Slice.create fileWrapped { data := file, pos := 0 } start len = .ok s ∧
+      ∃ r', (Sys.run (Rd.fsl s :: others) h).2[0]? = some r' ∧ r'.content = (file.drop start).take len := by
+  have hi : RSpec.Inv ({ data := file, pos := 0 } : RSpec) := ⟨Nat.zero_le _, hf⟩
+  obtain ⟨s, e, g, a⟩ := slice_create_ok fileWrappedOK _ hi start len hfit
+  refine ⟨s, e, ?_⟩
+  obtain ⟨r', h1, h2⟩ := Sys.run_content h (Rd.fsl s :: others) 0 (Rd.fsl s) rfl
+  refine ⟨r', h1, ?_⟩
+  rw [h2, fsl_content_abs, a]; rfl
+
 end Op2.Props.C13
